@@ -4,6 +4,7 @@ CONSTANTS
   FixA = TRUE
   FixB = TRUE
   FixC = TRUE
+  FixD = TRUE
 INVARIANT TypeOK Safe OutcomeAllowed
 CONSTRAINT HW
 POSTCONDITION TraceAccepted
